@@ -23,19 +23,19 @@ func symNote(msg string)
 func symRaceExempt(on bool)
 
 var (
-	ErrDatabaseNotOpen   = errors.New("database not open")
-	ErrInvalid           = errors.New("invalid database")
-	ErrTimeout           = errors.New("timeout")
-	ErrTxNotWritable     = errors.New("tx not writable")
-	ErrTxClosed          = errors.New("tx closed")
-	ErrDatabaseReadOnly  = errors.New("database is in read-only mode")
-	ErrBucketNotFound    = errors.New("bucket not found")
-	ErrBucketExists      = errors.New("bucket already exists")
+	ErrDatabaseNotOpen    = errors.New("database not open")
+	ErrInvalid            = errors.New("invalid database")
+	ErrTimeout            = errors.New("timeout")
+	ErrTxNotWritable      = errors.New("tx not writable")
+	ErrTxClosed           = errors.New("tx closed")
+	ErrDatabaseReadOnly   = errors.New("database is in read-only mode")
+	ErrBucketNotFound     = errors.New("bucket not found")
+	ErrBucketExists       = errors.New("bucket already exists")
 	ErrBucketNameRequired = errors.New("bucket name required")
-	ErrKeyRequired       = errors.New("key required")
-	ErrKeyTooLarge       = errors.New("key too large")
-	ErrValueTooLarge     = errors.New("value too large")
-	ErrIncompatibleValue = errors.New("incompatible value")
+	ErrKeyRequired        = errors.New("key required")
+	ErrKeyTooLarge        = errors.New("key too large")
+	ErrValueTooLarge      = errors.New("value too large")
+	ErrIncompatibleValue  = errors.New("incompatible value")
 )
 
 type Options struct {
@@ -221,7 +221,19 @@ func (db *DB) Close() error {
 		_ = db.file.Close()
 		db.file = nil
 	}
+	path := db.path
 	db.path = ""
+	symRaceExempt(true)
+	fault := closeFaults[path]
+	if fault {
+		delete(closeFaults, path)
+	}
+	symRaceExempt(false)
+	if fault {
+		// an injected fault while releasing the file lock: everything is released all the
+		// same (the descriptor is closed), but Close reports the error
+		return errors.New("bolt.Close(): funlock error: bad file descriptor (injected close fault)")
+	}
 	return nil
 }
 
@@ -621,6 +633,16 @@ func ModelRestore(src string, i int, dst string) {
 }
 
 var commitFaults = map[string]bool{}
+
+var closeFaults = map[string]bool{}
+
+// ModelCloseFault makes the next Close of a read-write database open on path report an error
+// (the unlock fails) although the file is released.
+func ModelCloseFault(path string) {
+	symRaceExempt(true)
+	closeFaults[path] = true
+	symRaceExempt(false)
+}
 
 // ModelCommitFault switches an injected write fault for the database file at path on or off:
 // while on, every Commit of a writable transaction on it fails and rolls back.
